@@ -122,6 +122,9 @@ class Whole:
         self.results = {}
         self.depth = depth
         self.errors = {}
+        self.preconds = {}
+        self.pre_failed = {}
+        self.pre_proved = {}
         order = self._order()
         for bid in order:
             b = prog.bodies[bid]
@@ -134,6 +137,97 @@ class Whole:
             s = summarise(an)
             if s is not None:
                 self.summaries[bid] = s
+            self._preconditions(b, an)
+        self._finish_preconditions()
+
+    # ---- preconditions (A4): an obligation over a function's entry cursor / data length may be
+    # discharged by its callers, when every caller establishes it and the function cannot be called
+    # from outside the crate
+    def _entry_syms(self, b):
+        out = set()
+        for i in range(1, b.argc + 1):
+            t = b.local_ty(i)
+            if t["k"] == "ref":
+                inner = b.ty(t["t"])
+                if inner["k"] == "int":
+                    out.add("(*_%d)@entry" % i)
+                elif inner["k"] in ("slice", "str"):
+                    out.add("len(_%d)" % i)
+            elif t["k"] == "int":
+                out.add("_%d" % i)
+        return out
+
+    def _can_assume(self, b):
+        return b.vis != "pub" and b.kind != "Closure"
+
+    def _preconditions(self, b, an):
+        entry = self._entry_syms(b)
+        allowed = self._can_assume(b)
+        pre = []
+        if allowed:
+            for oi, o in enumerate(an.obligations):
+                if o.ok or not o.failed:
+                    continue
+                if all(e is not None and set(e.syms()) <= entry for e, _ in o.failed):
+                    o.lifted = True
+                    for e, txt in o.failed:
+                        pre.append({"goal": e, "text": txt, "origin": (b.id, oi)})
+        # callee preconditions at this body's call sites
+        edges_by_block = {}
+        for (y, bi, why) in self.cg.edges.get(b.id, []):
+            edges_by_block.setdefault(bi, []).append((y, why))
+        checked = set()
+        for ev in an.events:
+            c = ev.get("callee")
+            if c is None:
+                continue
+            targets = []
+            if c["resolved"] and c["id"] in self.preconds:
+                targets = [c["id"]]
+            elif not c["resolved"]:
+                targets = [y for (y, why) in edges_by_block.get(ev["bi"], [])
+                           if y in self.preconds and (why.startswith("instantiated") or why in ("cha", "default-method"))]
+            for tid in targets:
+                checked.add((ev["bi"], tid))
+                for p in self.preconds[tid]:
+                    g = p["goal"]
+                    amap = ev.get("argmap") or {}
+                    okmap = True
+                    for s0 in list(g.syms()):
+                        r = amap.get(s0)
+                        if r is None:
+                            okmap = False
+                            break
+                        g = zone.subst(g, s0 + "", zone.Lin.sym("\0tmp"))
+                        g = zone.subst(g, "\0tmp", r)
+                    st = ev.get("st")
+                    if okmap and st is not None and entails(st.facts, an.iv, g, an.depth):
+                        self.pre_proved.setdefault(p["origin"], []).append((b.id, ev["bi"]))
+                        continue
+                    if okmap and allowed and set(g.syms()) <= entry:
+                        pre.append({"goal": g, "text": p["text"], "origin": p["origin"]})
+                        continue
+                    self.pre_failed.setdefault(p["origin"], []).append((b.id, ev["bi"]))
+        # a function with preconditions that is referenced other than by a direct call cannot be checked
+        for (y, bi, why) in self.cg.edges.get(b.id, []):
+            if y in self.preconds and (bi, y) not in checked:
+                for p in self.preconds[y]:
+                    self.pre_failed.setdefault(p["origin"], []).append((b.id, bi))
+        if pre:
+            self.preconds[b.id] = pre
+
+    def _finish_preconditions(self):
+        for bid, an in self.results.items():
+            for oi, o in enumerate(an.obligations):
+                if o.lifted:
+                    fails = self.pre_failed.get((bid, oi))
+                    if fails:
+                        f0 = fails[0]
+                        o.detail += "  (not established by caller %s)" % self.prog.bodies[f0[0]].qname
+                    else:
+                        o.ok = True
+                        n = len(self.pre_proved.get((bid, oi), []))
+                        o.why = "precondition established by every caller (%d call sites)" % n
 
     def _order(self):
         comps = self.cg.sccs(self.prog.bodies.keys())
